@@ -131,6 +131,42 @@ func Resolve(v ssa.Value) ssa.Value {
 			}
 			v = b
 			continue
+		case *ssa.Parameter:
+			// parameter of an absorbed helper with a single call site: the argument of that call (absorb.go)
+			g := x.Parent()
+			sites := SitesOf(g)
+			if len(sites) != 1 || sites[0].Common().IsInvoke() {
+				return v
+			}
+			idx := -1
+			for k, q := range g.Params {
+				if q == x {
+					idx = k
+				}
+			}
+			if idx < 0 || idx >= len(sites[0].Common().Args) {
+				return v
+			}
+			v = sites[0].Common().Args[idx]
+			continue
+		case *ssa.Extract:
+			if c, ok := x.Tuple.(*ssa.Call); ok {
+				if h := AbsorbedCallee(c); h != nil {
+					if rs := ReturnsOf(h); len(rs) == 1 && x.Index < len(rs[0].Results) {
+						v = RetVal(rs[0], x.Index)
+						continue
+					}
+				}
+			}
+			return v
+		case *ssa.Call:
+			if h := AbsorbedCallee(x); h != nil {
+				if rs := ReturnsOf(h); len(rs) == 1 && len(rs[0].Results) == 1 {
+					v = RetVal(rs[0], 0)
+					continue
+				}
+			}
+			return v
 		case *ssa.UnOp:
 			if x.Op != token.MUL {
 				return v
